@@ -2778,8 +2778,13 @@ class Cond(Generic[X, R], GFI[X, R]):
             merged_discard = discard
         else:
             merged_discard, _ = self.callee.merge(discard, discard_, tr.check)
+        # When the condition switches, the visible branch changes: account for the
+        # score of the previously visible branch (zero correction otherwise)
+        switch_correction = tr.get_score() - jnp.where(
+            check, tr.trs[0].get_score(), tr.trs[1].get_score()
+        )
         return (
             CondTr(self, check, [new_tr, new_tr_]),
-            jnp.where(check, w, w_),
+            jnp.where(check, w, w_) + switch_correction,
             merged_discard,
         )
